@@ -30,6 +30,7 @@ func verifIsSym(v int) bool
 func verifVFSRoot() string
 func verifVFSPut(name string, content []byte)
 func verifVFSDel(name string)
+func verifTask(name string, notification bool)
 `
 
 func (e *Engine) byteIn(name, set string) *symv {
